@@ -11,7 +11,7 @@ use serde_json::json;
 use std::collections::HashMap;
 use std::time::Duration;
 
-const SOURCE: &str = "#[typeshare]\npub struct UserId { pub id: u32 }\n#[typeshare]\npub struct Account<T> {\n    pub user_id: UserId,\n    pub api_url: String,\n    pub tags: Option<Vec<String>>,\n    pub nothing: (),\n    pub extra: T,\n    pub stamp: Stamp,\n    pub blob: Blob,\n}\n#[typeshare]\npub enum Mode { Fast, Slow }\n";
+const SOURCE: &str = "#[typeshare]\npub struct UserId { pub id: u32 }\n#[typeshare]\npub struct Account<T> {\n    pub user_id: UserId,\n    pub api_url: String,\n    pub tags: Option<Vec<String>>,\n    pub nothing: (),\n    pub extra: T,\n    pub stamp: Stamp,\n    pub blob: Blob,\n}\n#[typeshare]\npub enum Mode { Fast, Slow }\n#[typeshare(swiftGenericConstraints = \"A: Codable & Equatable\")]\npub struct Paged<A, B> {\n    pub first: A,\n    pub second: Vec<B>,\n    pub nothing_here: (),\n}\n";
 
 #[derive(Clone, Debug, Default)]
 struct Dual {
@@ -287,6 +287,45 @@ pub fn run(ctx: &Ctx) -> (Spec, Report) {
                 let got = std::fs::read_to_string(&out).unwrap_or_default();
                 let want = expected.single().unwrap_or("");
                 rep.count("outputs_compared_bytewise", 1);
+                // the binary and the library share the backends: what a file-only table *means* is judged on the text itself
+                if c.lang == LangId::Swift {
+                    let decl = |name: &str| got.lines().find(|l| l.contains(&format!("struct {}{name}", eff.prefix)) && l.trim_start().starts_with("public struct")).unwrap_or("").to_string();
+                    let paged = decl("Paged");
+                    let params = paged.split('<').nth(1).and_then(|x| x.split('>').next()).unwrap_or("").to_string();
+                    for cst in &eff.default_generic_constraints {
+                        rep.count("file_only_settings_checked_on_text", 1);
+                        for part in cst.split('&').map(|p| p.trim()).filter(|p| !p.is_empty()) {
+                            let all_params_have_it = !params.is_empty() && params.split(',').all(|p| p.split(':').nth(1).map(|cs| cs.split('&').any(|x| x.trim() == part)).unwrap_or(false));
+                            if !all_params_have_it {
+                                rep.violate(format!("C20|swift|file-only-setting-not-applied|default_generic_constraints"), format!("default generic constraint {part} is missing on a parameter of `{}`", paged.trim()), detail(json!({"declaration": paged, "constraint": part})));
+                            }
+                        }
+                    }
+                    for deco in &eff.default_decorators {
+                        rep.count("file_only_settings_checked_on_text", 1);
+                        for name in ["UserId", "Account", "Paged"] {
+                            let d = decl(name);
+                            if !d.split(':').nth(1).map(|cs| cs.split(|ch| ch == ',' || ch == '{').any(|x| x.trim() == deco)).unwrap_or(false) && !d.contains(&format!(": {deco}")) && !d.contains(&format!(", {deco}")) {
+                                rep.violate(format!("C20|swift|file-only-setting-not-applied|default_decorators"), format!("default decorator {deco} is missing on `{}`", d.trim()), detail(json!({"declaration": d, "decorator": deco})));
+                            }
+                        }
+                    }
+                    let void = got.lines().find(|l| l.contains("struct CodableVoid")).unwrap_or("").to_string();
+                    for cst in &eff.codablevoid_constraints {
+                        rep.count("file_only_settings_checked_on_text", 1);
+                        if !void.contains(cst.as_str()) {
+                            rep.violate(format!("C20|swift|file-only-setting-not-applied|codablevoid_constraints"), format!("CodableVoid constraint {cst} is missing on `{}`", void.trim()), detail(json!({"declaration": void, "constraint": cst})));
+                        }
+                    }
+                }
+                for (from, to) in &eff.type_mappings {
+                    if ["Stamp", "Blob", "UserId"].contains(&from.as_str()) {
+                        rep.count("file_only_settings_checked_on_text", 1);
+                        if !got.contains(to.as_str()) {
+                            rep.violate(format!("C20|{lname}|file-only-setting-not-applied|type_mappings"), format!("type mapping {from} -> {to} leaves no trace in the output"), detail(json!({"mapping": [from, to]})));
+                        }
+                    }
+                }
                 if got != want {
                     // which setting is off?
                     let which = if c.lang == LangId::Go && eff.package.is_empty() { "go-package" } else { diff_setting(&got, want, c) };
